@@ -91,6 +91,18 @@ def handle (ws : List String) : String :=
   | ["decc", name, hex] => decc name hex
   -- state types holding unordered maps: whether the re-encoding has the same byte ORDER is not a property of the value
   | ["deccu", name, hex] => ((decc name hex).replace " same" " any").replace " diff" " any"
+  -- `VarInt::try_from(n)` followed by `mls_encode` (length headers): hex or the range error
+  | ["vi", n] => match n.toNat? with
+    | some n => match Codec.encodeLen n with
+      | .ok b => hexB b
+      | .error _ => "err"
+    | none => "bad-op"
+  -- `VarInt::mls_decode` of raw bytes: value and number of bytes consumed, or error
+  | ["vd", hex] => match Hex.ofHex? hex with
+    | some ba => match Codec.decodeVarint ba.toList with
+      | .ok (n, rest) => s!"{n} {ba.size - rest.length}"
+      | .error _ => "err"
+    | none => "bad-op"
   | ["decx", name, _] => if (lookup name).isSome then "err" else "unknown-type"
   | _ => "bad-op"
 end Driver.C12
